@@ -51,6 +51,15 @@ theorem time_gap_rule (ver : UInt8) (s : Stats) (b : EBlock) :
     (statsBlock ver s b).lastTs = b.blk.header.time :=
   ⟨(statsBlock_step ver s b).2.2.2.2.2.2.2.2, (statsBlock_step ver s b).2.2.2.2.2.2.2.1⟩
 
+/-- per script type: the table the report prints holds, for every type name, the number of outputs of that type in the
+    delivered range and the height / txid of the FIRST such output (chain order: blocks, transactions, outputs); a type that
+    never occurs has no row.  (The share printed next to it is count / total outputs — a quotient of two proved integers.) -/
+theorem type_table_spec (ver : UInt8) (bs : List EBlock) (n : String) :
+    lookupT n (bs.foldl (statsBlock ver) {}).types =
+      ((typeEvents ver bs).find? (·.1 == n)).map fun f => (n, ((typeEvents ver bs).filter (·.1 == n)).length, f.2.1, f.2.2) := by
+  rw [stats_types, bumpAll_lookup]
+  rfl
+
 /-- non-vacuity: sizes whose sum exceeds 2^32 are summed exactly -/
 example : ([0x90000000, 0x90000000, 0x90000000] : List Nat).sum = 7247757312 ∧ 7247757312 > 2^32 := by decide
 
